@@ -67,6 +67,17 @@ def v_qg5(sol, spec):
     return None
 
 
+def v_quasigroup(sol, spec):
+    n = spec["n"]
+    e = v_latin_rc(sol, spec)
+    if e:
+        return e
+    for a in range(n):
+        if sol[a * n + a] != a:
+            return f"not idempotent: {a}*{a}={sol[a * n + a]}"
+    return None
+
+
 def v_magic_square(sol, spec):
     n = spec["n"]
     if sorted(sol[: n * n]) != list(range(n * n)):
@@ -259,7 +270,7 @@ def v_donald(sol, spec):
 
 
 VALIDATORS = {
-    "queens": v_queens, "latin": v_latin, "latin_rc": v_latin_rc, "qg5": v_qg5, "magic_square": v_magic_square,
+    "queens": v_queens, "latin": v_latin, "latin_rc": v_latin_rc, "qg5": v_qg5, "quasigroup": v_quasigroup, "magic_square": v_magic_square,
     "magic_sequence": v_magic_sequence, "golomb": v_golomb, "bibd": v_bibd, "schur": v_schur, "sports": v_sports,
     "knapsack": v_knapsack, "tsp": v_tsp, "circuit": v_circuit, "sudoku": v_sudoku, "alpha": v_alpha, "donald": v_donald,
 }
@@ -323,6 +334,23 @@ def brute_count(spec):
             cost = sum(c[a][b] for a, b in zip(tour, tour[1:]))
             best = cost if best is None else min(best, cost)
         return best
+    if name == "quasigroup":  # idempotent latin squares, from the definition
+        n = spec["n"]
+        c = 0
+        perms = list(itertools.permutations(range(n)))
+
+        def rec(rows):
+            nonlocal c
+            i = len(rows)
+            if i == n:
+                c += 1
+                return
+            for p in perms:
+                if p[i] == i and all(p[j] != r[j] for r in rows for j in range(n)):
+                    rec(rows + [p])
+
+        rec([])
+        return c
     if name == "circuit":
         import math
 
@@ -350,6 +378,10 @@ def build(spec):
         from nucs.examples.quasigroup.quasigroup_problem import Quasigroup5Problem
 
         return Quasigroup5Problem(spec["n"], sym)
+    if name == "quasigroup":
+        from nucs.examples.quasigroup.quasigroup_problem import QuasigroupProblem
+
+        return QuasigroupProblem(spec["n"], sym)
     if name == "magic_square":
         from nucs.examples.magic_square.magic_square_problem import MagicSquareProblem
 
